@@ -91,4 +91,71 @@ let handle (p : string) : string =
     Buffer.contents out ^ "class=" ^ String.concat "/" (List.rev !classes)
   | _ -> "bad-payload"
 
-let () = vh_run handle
+(* ---- histories: H cap op op ...  with op one of: S[FI][nfi]  P:pop  Rk  R*  A  X:tok ---- *)
+let event_s ((p, u) : (n * bool) * n list) : string =
+  let (id, st) = p in
+  Printf.sprintf "E%s:%s:%s" (string_of_n id) (bool01 st)
+    (if u = [] then "none" else String.concat "+" (List.map string_of_n u))
+
+let handle_h (cap : int) (ops : string list) : string =
+  let ss = ref sess0 in
+  let pop = ref [] in
+  let log = ref [] in          (* newest first *)
+  let budget = ref cap in
+  let nstart = ref 0 and nabort = ref 0 and nref = ref 0 in
+  let push x = log := x :: !log in
+  let sync_events before =
+    let evs = !ss.events in
+    let k = List.length evs - before in
+    List.iter (fun e -> push (event_s e)) (List.rev (take k evs)) in
+  let reply_with (a : answer option) =
+    match call_of !ss.ag with
+    | None -> false
+    | Some c ->
+      if !budget <= 0 then false else begin
+        decr budget;
+        push (call_s c);
+        let before = List.length !ss.events in
+        let ans = match a with
+          | Some a -> a
+          | None -> let (a, p') = pop_answer !pop c in pop := p'; a in
+        ss := s_reply ans !ss;
+        sync_events before; true end in
+  List.iter (fun op ->
+    let before = List.length !ss.events in
+    match op.[0] with
+    | 'S' ->
+      let inc = op.[1] = 'I' in
+      let act = (match op.[2] with 'f' -> AFull | 'i' -> AInc | _ -> ANone) in
+      let running = !ss.ag.on_complete in
+      let id = !ss.next_id in
+      incr nstart; if running then incr nref;
+      push ((if running then "Z" else "S") ^ string_of_n id);
+      ss := s_start inc act !ss;
+      sync_events before
+    | 'P' -> pop := parse_pop (String.sub op 2 (String.length op - 2))
+    | 'A' -> incr nabort; push "A"; ss := s_abort !ss; sync_events before
+    | 'X' -> ignore (reply_with (Some (parse_tok (String.sub op 2 (String.length op - 2)))))
+    | 'R' ->
+      let k = if op = "R*" then max_int else ios (String.sub op 1 (String.length op - 1)) in
+      let i = ref 0 in
+      while !i < k && reply_with None do incr i done
+    | _ -> failwith "bad op") ops;
+  let entries = List.rev !log in
+  let evs = List.rev_map event_s !ss.events in
+  let idle = (match call_of !ss.ag with None -> true | Some _ -> false) in
+  let hz = (match !ss.ag.pending with PHazard -> true | _ -> false) in
+  Printf.sprintf "hn=%d;hlog=%s;hh=%s;ev=%s;idle=%s;%sclass=H%s%s%s%s"
+    (List.length entries) (String.concat "," (take 150 entries)) (hash_log entries)
+    (if evs = [] then "none" else String.concat "|" evs) (bool01 idle)
+    (if hz then "hazard=1;" else "")
+    (if !nabort > 0 then "-abort" else "") (if !nref > 0 then "-refused" else "")
+    (if List.exists (fun o -> String.length o = 3 && o.[0] = 'S' && o.[2] <> 'n') ops then "-nested" else "")
+    (if idle then "" else "-pending")
+
+let handle_all (p : string) : string =
+  match split p with
+  | "H" :: cap :: ops -> handle_h (ios cap) ops
+  | _ -> handle p
+
+let () = vh_run handle_all
